@@ -672,6 +672,43 @@ fn comp_enum_cases(max_nodes: usize, stride: usize) -> Box<dyn Iterator<Item = C
     }))
 }
 
+/// sampled (zone, query) whose truth is positive (the RRset, or a CNAME, exists at the name)
+pub fn sampled_positive(max_nodes: usize) -> impl Strategy<Value = CompCase> {
+    (
+        zones::zone_text(max_nodes),
+        proptest::collection::vec((zones::qpick(), zones::qtype_pick()), 8),
+    )
+        .prop_map(|(zone, picks)| {
+            let mut chosen: Option<(String, u16)> = None;
+            if let Ok(z) = Zone::parse(zone.as_str()) {
+                let owners = zb::owners_rel(&z);
+                for (p, t) in &picks {
+                    let q = zones::resolve_q(p, &owners);
+                    if matches!(z.truth(&abs_q(&z, &q), *t), Truth::Positive) {
+                        chosen = Some((q, *t));
+                        break;
+                    }
+                }
+                if chosen.is_none() {
+                    // every owner has some type: ask for the first type of the first owner
+                    for o in &owners {
+                        for t in [ty::A, ty::TXT, ty::NS, ty::CNAME, ty::SOA] {
+                            if matches!(z.truth(&abs_q(&z, o), t), Truth::Positive) {
+                                chosen = Some((o.clone(), t));
+                                break;
+                            }
+                        }
+                        if chosen.is_some() {
+                            break;
+                        }
+                    }
+                }
+            }
+            let (q, qtype) = chosen.unwrap_or(("@".into(), ty::SOA));
+            CompCase { zone, q: ZText::new(&q), qtype }
+        })
+}
+
 /// sampled (zone, query) with negative / wildcard truth: the query is *constructed* from the
 /// zone (candidate pool filtered by the truth predicate), not rejected
 pub fn sampled_comp(max_nodes: usize) -> impl Strategy<Value = CompCase> {
